@@ -616,8 +616,11 @@ void det_check_impl(const Json& c, Out& o) {
     const int off = s.p >= 0 ? s.p % frame : -1;
     const char* pos = s.p < 0 ? "absent" : off == 0 ? "end-first" : off == frame - 1 ? "end-last" : off < nh - 1 ? "straddle" : "inside";
     int detections = 0;
-    for (int f = 0; f < s.nframes; f += chunk) {
-        const int nf = std::min(chunk, s.nframes - f);
+    // "vary": the number of frames per process() call changes from call to call (1..3), otherwise it is constant (chunk)
+    const uint64_t vary = c.has("vary") ? c.getu("vary") : 0;
+    Rng vr(vary);
+    for (int f = 0, nf = 0; f < s.nframes; f += nf) {
+        nf = std::min(vary ? vr.range(1, 3) : chunk, s.nframes - f);
         const int start = f * frame, len = nf * frame;
         arr_cmplx blk(len);
         for (int i = 0; i < len; ++i) blk[i] = s.x[start + i];
@@ -661,7 +664,7 @@ void det_check_impl(const Json& c, Out& o) {
     o.label(std::string("preamble:") + preamble_name(type, nh));
     o.label(nh < 32 ? "nh:16-31" : nh < 64 ? "nh:32-63" : nh < 128 ? "nh:64-127" : nh < 256 ? "nh:128-255" : "nh:256-512");
     o.label(thr < 0.5 ? "thr:0.3-0.5" : thr < 0.7 ? "thr:0.5-0.7" : "thr:0.7-0.9");
-    o.label(chunk == 1 ? "call:1-frame" : "call:multi-frame");
+    o.label(vary ? "call:varying-frames-per-call" : chunk == 1 ? "call:1-frame" : "call:multi-frame");
     if (present == 2) o.label("absent:other-sequence");
     if (present == 0) o.label("absent:noise-only");
     const int tb = int(thr * 10);
@@ -708,7 +711,7 @@ static Json det_random_case(int present) {
     const int frame_guess = fft_len - nh + 1;
     const int off = oc == 0 ? 0 : oc == 1 ? frame_guess - 1 : oc == 2 ? pick(0, nh - 1) : pick(0, frame_guess - 1);
     return Json::object().set("nh", nh).set("type", pick(0, P_NTYPES - 1)).set("thr", thr).set("a_db", pickd(-35.0, 35.0)).set("snr_db", pickd(20.0, 100.0)).set("off", off)
-      .set("lead", pick(0, 2)).set("tail", pick(0, 2)).set("chunk", pick(1, 3)).set("present", present).set("seed", (long long)seed64());
+      .set("lead", pick(0, 4)).set("tail", pick(0, 4)).set("chunk", pick(1, 3)).set("vary", flip() ? (long long)(1 + pick64(0, 1 << 30)) : 0LL).set("present", present).set("seed", (long long)seed64());
 }
 
 VK_SUB(drnd, "detector_random");
